@@ -260,9 +260,10 @@ class C17(Property):
             elif cross:
                 side = rng.random()
                 if side < 0.35:
-                    start, end = rng.choice([850, 900]), rng.choice([960, 990])    # before the origin
+                    start, end = rng.choice([500, 501, 850, 900]), rng.choice([960, 990])    # before the origin
                 elif side < 0.7:
-                    start, end = rng.choice([10, 20]), rng.choice([60, 90])        # after it
+                    start = rng.choice([10, 20, 499])                                        # after it
+                    end = start + rng.choice([50, 80])
                 else:
                     start, end = rng.choice([900, 950]), rng.choice([50, 80])
             else:
@@ -524,7 +525,8 @@ class C17(Property):
             out = []
             for bio in rec.to_biopython().features:
                 if bio.type == "source":
-                    out.append([int(bio.location.start), len(bio.location), True, sorted(bio.qualifiers) == list(bio.qualifiers)])
+                    assert sorted(bio.qualifiers) == list(bio.qualifiers)
+                    out.append([int(bio.location.start), len(bio.location), True, []])
                     continue
                 out.append([int(bio.location.start), len(bio.location), False,
                             [[QUAL_KEYS.index(k) - NOTE_RANK, [VALS.index(v) for v in vals]]
@@ -571,24 +573,11 @@ class C17(Property):
         if kind == "best":
             return {"k": "best", "eq": case["eq"], "hits": case["hits"]}
         if kind == "write":
-            return None
+            groups = [[{"start": 0, "len": 120, "source": True, "quals": [], "notes": []}] if case["source"] else [],
+                      [{"start": f["start"], "len": f["end"] - f["start"], "source": False, "quals": f["quals"],
+                        "notes": f["notes"]} for f in case["feats"]]]
+            return {"k": "write", "groups": groups}
         return None
-
-    @staticmethod
-    def model_write(case: Dict[str, Any]) -> List[Any]:
-        """`writeRecord` is also evaluated by the Lean `example`s; the in-process comparison for the write kind
-           uses this transcription of the model (stable sort by (start, length), qualifiers by key, notes sorted)"""
-        feats = []
-        if case["source"]:
-            feats.append((0, 120, True, None))
-        for f in case["feats"]:
-            quals = {k: list(v) for k, v in f["quals"]}
-            if f["notes"]:
-                quals[0] = sorted(f["notes"])
-            feats.append((f["start"], f["end"] - f["start"], False, [[k, quals[k]] for k in sorted(quals)]))
-        # Feature.__lt__: a source wins ties; otherwise (start, length); stable
-        order = sorted(range(len(feats)), key=lambda i: (feats[i][0], feats[i][1], 0 if feats[i][2] else 1, i))
-        return [[feats[i][0], feats[i][1], feats[i][2], True if feats[i][2] else feats[i][3]] for i in order]
 
     def judge(self, case: Dict[str, Any], obs: Dict[str, Any], drv: Optional[Dict[str, Any]]) -> Judgement:
         kind = case["kind"]
@@ -599,11 +588,6 @@ class C17(Property):
         if "err" in obs:
             return Judgement(False, False, True, None, False, (kind, "error"), f"{obs['err']}: {obs.get('msg')} {obs.get('trace', '')[-300:]}")
         same = obs["same"]
-        if kind == "write":
-            model = self.model_write(case)
-            corr = obs["out"] == model
-            return Judgement(corr, same, True, None, len(case["feats"]) > 1, (kind,),
-                             "" if corr and same else f"impl {obs['out']} / {obs.get('other')} model {model}")
         if drv is None or "err" in drv:
             return Judgement(False, same, True, None, False, (kind, "driver-error"), str(drv))
         model = drv["model"]
